@@ -429,12 +429,20 @@ def text_expected(enc, evs):
     return b, straddle
 
 
+def representable_only(enc, evs):
+    """the guard of text_method_encoding_partial: every unit representable in the encoding (class of K18 otherwise)"""
+    top = {"ISO-8859-1": 0xFF, "US-ASCII": 0x7F}.get(enc)
+    if top is None:
+        return evs
+    return [("T", [u if u <= top else 0x20 + u % 0x5F for u in e[1]]) if e[0] in ("T", "C") else e for e in evs]
+
+
 def gen_t_cases(ctx, n):
     r = ctx.rng
     cases = []
     for i in range(n):
         enc = ENCODINGS[i % 4]
-        evs = gen_tree(r, r.choice(["mixed", "wsonly", "comments", "deep"]))
+        evs = representable_only(enc, gen_tree(r, r.choice(["mixed", "wsonly", "comments", "deep"])))
         if i % 3 == 0:
             safe = element_names(evs)
             evs = apply_cdata(evs, r.sample(safe, min(len(safe), 2)))
@@ -443,7 +451,7 @@ def gen_t_cases(ctx, n):
     for enc in ENCODINGS:
         for pad in (509, 510, 512, 513, 1022, 1024):
             for sp in ([0xE9], [0x20AC], [0xD83D, 0xDE00], [0x3042]):
-                cases.append(("text:boundary", enc, [("S", u16("r"), []), ("T", u16("a") * pad + sp + u16("z")), ("E", u16("r"))]))
+                cases.append(("text:boundary", enc, representable_only(enc, [("S", u16("r"), []), ("T", u16("a") * pad + sp + u16("z")), ("E", u16("r"))])))
     return cases
 
 
@@ -856,6 +864,14 @@ def gen_z_cases(ctx, n):
             else:
                 impo = None
             api = (r.choice(["-", "-", "-", "0", "2", "3"]), r.choice(["-", "-", "-"] + ENCODINGS), "-", "-")
+            eff = effective(([impo] if impo else []) + [o1, o2], api[0], api[1])
+            if (eff.get("indent") == "yes" or "xalan:indent-amount" in eff or api[0] != "-") and not guard_ok(apply_cdata(evs, [u16(x) for x in eff["cdata"]])):
+                # the class of finding K-C08-1 stays out of the generated stream (it is replayed from the corpus)
+                o1 = [a for a in o1 if a[0] != "cdata-section-elements"]
+                o2 = [a for a in o2 if a[0] != "cdata-section-elements"]
+                if impo:
+                    impo = [a for a in impo if a[0] != "cdata-section-elements"]
+                    imp = sheet_of([impo], "<never/>").replace('<xsl:template match="/">', '<xsl:template match="never">')
             outs = [o for o in (o1, o2) if o]
             variants.append((outs, impo, imp, api))
         groups.append((evs, body, variants))
@@ -938,6 +954,7 @@ def run_z_methods(ctx, n, impl):
             continue
         enc = r.choice(ENCODINGS)
         api_enc = r.choice(["-", "-", r.choice(ENCODINGS)])
+        evs = representable_only(api_enc if api_enc != "-" else enc, evs)
         cid = "zt%d" % i
         lines.append(z_line(cid, sheet_of([[("method", "text"), ("encoding", enc)]], body_of(evs)), ("-", api_enc, "-", "-")))
         meta[cid] = ("text", evs, api_enc if api_enc != "-" else enc, lines[-1])
